@@ -126,7 +126,16 @@ fn multi_store(ctx: &mut Ctx, case: u64, rng: &mut Rng, k: u64) {
     let nstores = 2 + (k % 2) as usize;
     // sizes around the one-byte / two-byte position boundary
     let sizes: Vec<usize> = (0..nstores).map(|s| match (k as usize + s) % 4 { 0 => 3 + rng.below(20) as usize, 1 => 257 + rng.below(60) as usize, 2 => 255 + rng.below(3) as usize, _ => 300 + rng.below(400) as usize }).collect();
-    let sorted: Vec<bool> = (0..nstores).map(|_| rng.chance(1, 2)).collect();
+    let mut sorted: Vec<bool> = (0..nstores).map(|_| rng.chance(1, 2)).collect();
+    // a reference used as (first) sort key: store 0 is sorted on (p1, p0), p1 referring to entries of
+    // store 1, which is registered — hence ordered — after it.  Store 0 is ordered while its
+    // references still read the provisional (insertion) positions of their targets; what is
+    // *stored* must nevertheless be the targets' final positions.
+    let refkey0 = k % 4 == 3;
+    if refkey0 {
+        sorted[0] = true;
+        sorted[1] = true;
+    }
     // p1: only references (to the *next* store, wrapping: the first store refers to a store
     // registered later, the last one to the first); p2: references mixed with small plain values
     let mut keys: Vec<Vec<u64>> = vec![];
@@ -158,7 +167,7 @@ fn multi_store(ctx: &mut Ctx, case: u64, rng: &mut Rng, k: u64) {
     let dir = ctx.work.join(format!("dp-{}", case));
     std::fs::create_dir_all(&dir).unwrap();
     let path = dir.join("dir.jbkd");
-    let label = format!("multi-store-{}-{:?}-{:?}", nstores, sizes, sorted);
+    let label = format!("multi-store-{}-{:?}-{:?}{}", nstores, sizes, sorted, if refkey0 { "-refkey" } else { "" });
     let built = util::guarded(|| -> Result<Vec<Vec<u32>>, String> {
         let mut creator = jbk::creator::DirectoryPackCreator::new(jbk::PackId::from(0), util::VENDOR, Default::default());
         let vows: Vec<Vec<jbk::Vow<jbk::EntryIdx>>> = sizes.iter().map(|n| (0..*n).map(|_| jbk::Vow::new(jbk::EntryIdx::from(0))).collect()).collect();
@@ -169,7 +178,7 @@ fn multi_store(ctx: &mut Ctx, case: u64, rng: &mut Rng, k: u64) {
             let sch = schema::Schema::new(
                 schema::CommonProperties::new(vec![schema::Property::new_uint("p0"), schema::Property::new_uint("p1"), schema::Property::new_uint("p2")]),
                 vec![],
-                if sorted[s] { Some(vec!["p0"]) } else { None },
+                if s == 0 && refkey0 { Some(vec!["p1", "p0"]) } else if sorted[s] { Some(vec!["p0"]) } else { None },
             );
             let mut store: Box<jbk::creator::EntryStore<&'static str, &'static str, BE>> = Box::new(jbk::creator::EntryStore::new(sch, None));
             let mut hs = vec![];
@@ -208,7 +217,9 @@ fn multi_store(ctx: &mut Ctx, case: u64, rng: &mut Rng, k: u64) {
     let mut orders: Vec<Vec<usize>> = vec![];
     for s in 0..nstores {
         let mut order: Vec<usize> = (0..sizes[s]).collect();
-        if sorted[s] {
+        if s == 0 && refkey0 {
+            order.sort_by_key(|i| (p1[0][*i].1, keys[0][*i]));
+        } else if sorted[s] {
             order.sort_by_key(|i| keys[s][*i]);
         }
         let mut p = vec![0u64; sizes[s]];
